@@ -256,8 +256,11 @@ def finish(run, level, coverage, assumptions, replay_dir_name="replay"):
     for sig, v in sorted(seen_known.items()):
         print("KNOWN-FINDING: property=%s %s — %s" % (run.pid, sig, known_sigs[sig].get("what", "")), flush=True)
     rc = 0
-    os.makedirs(os.path.join(VERIF, "evidence"), exist_ok=True)
-    repdir = os.path.join(VERIF, "evidence", "replay")
+    # the evidence of the registered checks lives in /verif/evidence; a run against a scratch copy of the repository
+    # (bin/seedtest2) is told to put its own elsewhere
+    evdir = os.environ.get("VERIF_EVIDENCE_DIR") or os.path.join(VERIF, "evidence")
+    os.makedirs(evdir, exist_ok=True)
+    repdir = os.path.join(evdir, "replay")
     if unknown:
         os.makedirs(repdir, exist_ok=True)
         rc = 1
@@ -279,7 +282,7 @@ def finish(run, level, coverage, assumptions, replay_dir_name="replay"):
     ev = dict(property_id=run.pid, tier=run.tier, seed=run.seed, level=level, coverage=coverage,
               assumptions=assumptions, wall_s=round(time.time() - run.t0, 2),
               violations=len({v["signature"] for v in unknown}))
-    json.dump(ev, open(os.path.join(VERIF, "evidence", run.pid + ".json"), "w"), indent=1, sort_keys=True, default=str)
+    json.dump(ev, open(os.path.join(evdir, run.pid + ".json"), "w"), indent=1, sort_keys=True, default=str)
     print("%s %s tier=%s seed=%d: %s (%d known finding(s), %.0fs)" % (
         "OK" if rc == 0 else "FAIL", run.pid, run.tier, run.seed,
         "property held on everything explored" if rc == 0 else "%d new violation(s)" % ev["violations"],
